@@ -227,6 +227,45 @@ func ContentionWith(seed int64, index int, tier string, opts ContentionOpts) *sp
 		c.Objects.Pods = append(c.Objects.Pods, pod)
 		return true
 	}
+	// elastic adds one running workload of n single-GPU pods with the given minimum; returns the pods placed
+	elastic := func(queue string, min, n int, recent bool) int {
+		name := fmt.Sprintf("w%d", wid)
+		wid++
+		start := now.Add(-10 * time.Hour)
+		if recent {
+			start = now.Add(-time.Minute)
+		}
+		pg := &enginev2alpha2.PodGroup{ObjectMeta: metav1.ObjectMeta{Name: "pg-" + name, Namespace: "ns", UID: types.UID("pgu-" + name),
+			CreationTimestamp: metav1.NewTime(now.Add(-700 * time.Minute)), Annotations: map[string]string{"kai.scheduler/last-start-timestamp": start.Format(time.RFC3339)}},
+			Spec: enginev2alpha2.PodGroupSpec{MinMember: int32(min), Queue: queue, PriorityClassName: "p-train"}}
+		placed := 0
+		for i := 0; i < n; i++ {
+			ni := -1
+			for j, f := range free {
+				if f >= 1 {
+					ni = j
+					break
+				}
+			}
+			if ni < 0 {
+				break
+			}
+			free[ni]--
+			req := v1.ResourceList{v1.ResourceCPU: mq(100), v1.ResourceMemory: q(128 << 20), "nvidia.com/gpu": q(1)}
+			pn := fmt.Sprintf("%s-%d", name, i)
+			c.Objects.Pods = append(c.Objects.Pods, &v1.Pod{ObjectMeta: metav1.ObjectMeta{Name: pn, Namespace: "ns", UID: types.UID("uid-" + pn),
+				Annotations: map[string]string{"pod-group-name": pg.Name, spec.LogicalNameAnno: pn, "received-resource-type": "Regular"}, Labels: map[string]string{},
+				CreationTimestamp: metav1.NewTime(now.Add(-700 * time.Minute))},
+				Spec: v1.PodSpec{SchedulerName: spec.SchedulerName, PriorityClassName: "p-train", NodeName: c.Objects.Nodes[ni].Name,
+					Containers: []v1.Container{{Name: "main", Image: "img", Resources: v1.ResourceRequirements{Requests: req, Limits: v1.ResourceList{"nvidia.com/gpu": q(1)}}}}},
+				Status: v1.PodStatus{Phase: v1.PodRunning}})
+			placed++
+		}
+		if placed > 0 {
+			c.Objects.PodGroups = append(c.Objects.PodGroups, pg)
+		}
+		return placed
+	}
 	// running: one organisation above its quota, the others at or below; the cluster is full or one device short
 	over := r.IntN(nOrg)
 	run := make([]int, nOrg)
@@ -258,6 +297,19 @@ func ContentionWith(seed int64, index int, tier string, opts ContentionOpts) *sp
 	}
 	for o := 0; o < nOrg; o++ {
 		ls := leavesOf(o)
+		if opts.MinRuntime && o == over && run[o] >= 3 && r.IntN(2) == 0 {
+			// the organisation above its quota runs one elastic workload instead of single-pod jobs: minimum 1-2,
+			// the rest is surplus that several reclaimers of one cycle may take, but never more than that while the
+			// workload is inside its min-runtime
+			n := run[o]
+			if n > 4 {
+				n = 4
+			}
+			min := 1 + r.IntN(2)
+			if placed := elastic(ls[r.IntN(len(ls))].name, min, n, r.IntN(2) == 0); placed > 0 {
+				run[o] -= placed
+			}
+		}
 		for n := run[o]; n > 0; {
 			g := 1
 			if n >= 2 && r.IntN(4) == 0 && !blockedHead {
